@@ -44,8 +44,9 @@ class _BaseITML(MahalanobisMixin):
       X = np.unique(np.vstack(pairs), axis=0)
       self.bounds_ = np.percentile(pairwise_distances(X), (5, 95))
     else:
+      # (a copy: zero bounds are replaced below, the caller's array is kept)
       bounds = check_array(bounds, allow_nd=False, ensure_min_samples=0,
-                           ensure_2d=False)
+                           ensure_2d=False, copy=True)
       bounds = bounds.ravel()
       if bounds.size != 2:
         raise ValueError("`bounds` should be an array-like of two elements.")
